@@ -257,6 +257,10 @@ func Random(seed int64, idx int, opt RandOpt) *Entry {
 		built[i] = m
 	}
 	f.Messages = append(built, flat, M(voidName))
+	// the declaration order of the messages is free (a nested type may be declared before its user)
+	if r.Intn(2) == 0 {
+		r.Shuffle(len(f.Messages), func(a, b int) { f.Messages[a], f.Messages[b] = f.Messages[b], f.Messages[a] })
+	}
 	if opt.MultiPath && nm >= 3 {
 		// make sure the last message occurs at several paths of the first root
 		last := msgNames[nm-1]
